@@ -44,6 +44,9 @@ func newC12Ref(k *c12Kind, s c12Seq) *c12Ref {
 	for _, b := range s.By {
 		r.links[[2]string{ownerKey(c12Bystander), fmt.Sprint("t", b)}] = true
 	}
+	for _, b := range s.Own {
+		r.links[[2]string{ownerKey(c12Owner1), fmt.Sprint("t", b)}] = true
+	}
 	return r
 }
 
@@ -274,6 +277,9 @@ func c12Flags(s c12Seq, k *c12Kind, ref *c12Ref, op c12Op, labels [][]string, cu
 func c12JudgeF(s c12Seq, obs []c12Obs) (*c12Verdict, int, map[string]bool) {
 	flags := map[string]bool{}
 	handed := map[string]int{}
+	for _, b := range s.Own {
+		handed[fmt.Sprint("t", b)] = 0 // held by the first operated owner from the start
+	}
 	k := c12KindByName(s.Kind)
 	ref := newC12Ref(k, s)
 	owners := c12OwnerIDs(s)
@@ -407,7 +413,7 @@ type c12GenCfg struct {
 func genC12Seq(rng *rand.Rand, cfg c12GenCfg) c12Seq {
 	kn := cfg.Kinds[rng.Intn(len(cfg.Kinds))]
 	k := c12KindByName(kn)
-	s := c12Seq{Kind: kn, Owners: 1, Pre: []int{}, By: []int{}}
+	s := c12Seq{Kind: kn, Owners: 1, Pre: []int{}, By: []int{}, Own: []int{}}
 	if rng.Float64() < cfg.Slice {
 		s.Owners = 2
 		s.OwnerPtr = rng.Intn(2) == 0
@@ -420,6 +426,8 @@ func genC12Seq(rng *rand.Rand, cfg c12GenCfg) c12Seq {
 			exists[id] = true
 			if rng.Intn(5) < 2 && !(k.Card1 && len(s.By) >= 1) {
 				s.By = append(s.By, id)
+			} else if rng.Intn(4) == 0 && !(k.Card1 && len(s.Own) >= 1) && !(avoid && s.Owners == 2 && id > c12PoolLo+2) {
+				s.Own = append(s.Own, id) // the operated owner u1 starts with links (and is loaded with Preload)
 			}
 		}
 	}
@@ -561,6 +569,7 @@ func c12Hist(r *Result, pfx string, s c12Seq) {
 	r.H(pfx+".kind", s.Kind)
 	r.H(pfx+".owners", fmt.Sprint(s.Owners))
 	r.H(pfx+".len", fmt.Sprint(len(s.Ops)))
+	r.H(pfx+".initial_links_of_operated_owner", fmt.Sprint(len(s.Own)))
 	for _, op := range s.Ops {
 		n := op.Op
 		if op.Unscoped {
